@@ -52,6 +52,7 @@ type c19ApplyResp struct {
 	Count   int    `json:"count"`
 	Err     string `json:"err"`
 	NoSplit bool   `json:"nosplit"`
+	Incons  string `json:"inconsistent"` // compiled AST tables no longer match its lists after a rename
 }
 
 func c19ChildMain() {
@@ -73,8 +74,8 @@ func c19ChildMain() {
 			return
 		}
 		var resp c19ApplyResp
-		newSrc, edited, count, aerr := c19Apply(req.Src, req.Path, req.Edit)
-		resp.Out, resp.Count = newSrc, count
+		newSrc, edited, count, incons, aerr := c19Apply(req.Src, req.Path, req.Edit)
+		resp.Out, resp.Count, resp.Incons = newSrc, count, incons
 		if aerr != nil {
 			resp.Err = aerr.Error()
 		} else if edited != nil {
@@ -546,6 +547,8 @@ func c19Family(op, what, tag string) string {
 	switch {
 	case what == "refactor-crash" || what == "refactor-panic":
 		return "C19:" + op + ":" + what + ":" + tag
+	case has("later-step-renames-a-name-an-earlier-edit-reads"):
+		return "C19:multi-step-edits-read-mutated-names"
 	case strings.HasPrefix(op, "rename") && strings.HasPrefix(what, "roundtrip") && has("new-name-is-an-alias-of-a-call-to-it"):
 		return "C19:rename-to-own-alias-not-reversible"
 	case has("leaves-map-call-without-split"):
@@ -556,7 +559,7 @@ func c19Family(op, what, tag string) string {
 		return "C19:wildcard-binding-not-adjusted"
 	case op == "removeUnused" && what == "compile-NoSuchOutputError" && has("pipeline-outside-top-call-graph"):
 		return "C19:unused-outputs-breaks-pipelines-outside-top-calls"
-	case strings.HasPrefix(op, "remove") && what == "compile-UnusedInputError":
+	case (strings.HasPrefix(op, "remove") || strings.Contains(op, "remove")) && what == "compile-UnusedInputError":
 		return "C19:removal-leaves-unused-pipeline-input"
 	}
 	return "C19:" + op + ":" + what + ":" + tag
@@ -768,6 +771,9 @@ func c19CheckProp(cs *c19Case, base *c19Compiled, baseGraph *c19Node, pl c19Plan
 		} else {
 			tag += "+leaves-map-call-without-split"
 		}
+	}
+	if resp.Incons != "" {
+		return fail("property", "compiled-ast-tables", "after the edit the compiled AST's lookup tables no longer match it (later steps of the same Refactor call read them): "+resp.Incons), editedEnc
 	}
 	if modelOut == "unsupported" {
 		modelOut = "" // removeOutput is not modelled (see manifest): real-code oracle only
@@ -1038,7 +1044,7 @@ func runC19(c *Ctx) {
 	savedLog := util.ENABLE_LOGGING
 	util.ENABLE_LOGGING = false
 	defer func() { util.ENABLE_LOGGING = savedLog }()
-	r.Rule = "programs: corpus/C19/*.mro + the repository's single-file .mro testdata (syntax/testdata, refactoring/testdata, test/*) + PRNG-generated compiling programs (stages, nested pipelines, aliased calls incl. aliases that are other callables' names, map calls, disabled modifiers bound to inputs/outputs, struct outputs with projections, whole-call struct bindings, `* = self` and `* = self.pt` wildcards, retains, shared in/out names). For EVERY callable: rename to a fresh name and to every colliding call alias; for EVERY input/output: rename (fresh, and to a name of the opposite direction), remove; plus removeUnused (calls / outputs / both). Each edit: real Refactor->Apply->Format->recompile->MakeCallGraph, oracle = graph equal modulo the renaming or minus removed elements, X->Y->X byte-identical + EquivalentCall; the Lean model's edited AST compared with the real one. non-trivial = the edit changed the program text; distinct = distinct (program, edit)."
+	r.Rule = "programs: corpus/C19/*.mro + the repository's single-file .mro testdata (syntax/testdata, refactoring/testdata, test/*) + PRNG-generated compiling programs (stages, nested pipelines, aliased calls incl. aliases that are other callables' names, map calls, disabled modifiers bound to inputs/outputs, struct outputs with projections, whole-call struct bindings, `* = self` and `* = self.pt` wildcards, retains, shared in/out names). For EVERY callable: rename to a fresh name and to every colliding call alias; for EVERY input/output: rename (fresh, and to a name of the opposite direction), remove; plus removeUnused (calls / outputs / both). Each edit: real Refactor->Apply->Format->recompile->MakeCallGraph, oracle = graph equal modulo the renaming or minus removed elements, X->Y->X byte-identical + EquivalentCall; the Lean model's edited AST compared with the real one. Multi-step edits: PRNG-chosen ordered pairs and triples of operations in ONE Refactor call (as `mro edit` with several options applies them: callable renames, input renames, output renames, input removals, output removals, remove-unused loop), later steps addressing the names produced by earlier ones, biased towards a callable rename followed by an operation on the renamed callable; oracle = the one-shot result equals the composition of the single steps done on freshly compiled programs (text, else compile + identical call graph) and equals the model's composition; after every rename the compiled AST's lookup tables must still match its lists. Generator name pools contain prefix-related names for parameters (pt/pt_alt, xt/xt_alt, a/a_2, f/f_idx), callables (X/X_B/X_P) and call ids (callee_N, callid_X); struct-typed outputs are projected in call bindings, disabled modifiers, returns and retains. non-trivial = the edit changed the program text; distinct = distinct (program, edit)."
 	if c.Drv != nil {
 		if rep := c.Drv.Ask("C19.ping"); rep != "pong" {
 			r.note("Lean driver has no C19 model (reply %q): model correspondence skipped", rep)
@@ -1058,7 +1064,7 @@ func runC19(c *Ctx) {
 	}
 	nGen := 120
 	if c.Thorough {
-		nGen = 1600
+		nGen = 1000
 	}
 	if os.Getenv("C19_ONLY_CORPUS") != "" {
 		nGen = 0
@@ -1139,6 +1145,9 @@ func runC19(c *Ctx) {
 					case "removeUnused":
 						treqs = append(treqs, []string{"C19.thm", enc, "-", "-", a[6], a[7]})
 						tidx = append(tidx, i)
+					case "removeOutput":
+						treqs = append(treqs, []string{"C19.thmout", enc, pl.Edit.Callable, pl.Edit.Param})
+						tidx = append(tidx, i)
 					}
 				}
 				for k, rep := range c.Drv.AskBatch(treqs) {
@@ -1154,6 +1163,11 @@ func runC19(c *Ctx) {
 						r.hist("theorem-instance:rename wf=" + f["wf"] + " fresh=" + f["fresh"])
 						if f["wf"] == "true" && f["fresh"] == "true" && (f["rt"] != "true" || f["cg"] != "true") {
 							bad = "rename_rename_id / rename_callgraph_partial"
+						}
+					} else if pl.Edit.Op == "removeOutput" {
+						r.hist("theorem-instance:removeOutput unreferenced=" + f["unref"])
+						if f["unref"] == "true" && f["same"] != "true" {
+							bad = "remove_output_unused"
 						}
 					} else {
 						r.hist("theorem-instance:removeLoop")
@@ -1240,6 +1254,74 @@ func runC19(c *Ctx) {
 				v.Broken = "correspondence Martian.Refactor.applyEdit ~ refactoring.Refactor+Apply"
 			}
 			r.violate(v)
+		}
+		// ---- several operations in one Refactor call ----
+		if base.Graph != nil {
+			multis := c19PlanMulti(c, cs, plan, func() string { freshN++; return fmt.Sprintf("ZZ_NEW%d", freshN) })
+			// explicit multi-step edits of a corpus program: corpus/C19/<name>.edits.json, run first
+			if strings.HasPrefix(cs.Name, "corpus/") {
+				ef := filepath.Join(c.Corpus, strings.TrimSuffix(strings.TrimPrefix(cs.Name, "corpus/"), ".mro")+".edits.json")
+				if b, err := os.ReadFile(ef); err == nil {
+					var fixed [][]c19Edit
+					if err := json.Unmarshal(b, &fixed); err != nil {
+						r.note("cannot read %s: %v", ef, err)
+					} else {
+						multis = append(fixed, multis...)
+						r.hist("corpus:explicit-multi-step-edits")
+					}
+				}
+			}
+			for _, steps := range multis {
+				multi := c19MultiEdit(steps)
+				if tf := os.Getenv("C19_TRACE"); tf != "" {
+					os.WriteFile(tf, []byte(multi.String()+"\n"+cs.Src), 0o644)
+				}
+				c19LastCorr = nil
+				o, skip := c19CheckMulti(c, cs, steps)
+				if skip != "" {
+					r.hist("multi-skipped:" + skip)
+					continue
+				}
+				r.hist("edit:multi:" + c19MultiClass(steps))
+				r.count(cs.Src+"\x00"+multi.String(), true)
+				outs := []c19Outcome{}
+				if o.Key != "" {
+					outs = append(outs, o)
+				}
+				if c19LastCorr != nil {
+					outs = append(outs, *c19LastCorr)
+				}
+				for _, o := range outs {
+					r.hist("violation:" + o.Key)
+					reported[o.Key]++
+					if reported[o.Key] > 2 {
+						continue
+					}
+					small := cs
+					if reported[o.Key] == 1 && os.Getenv("C19_NOSHRINK") == "" {
+						t0 := time.Now()
+						small = c19ShrinkMulti(c, cs, steps, o.Key)
+						shrinkTime += time.Since(t0)
+					}
+					v := Violation{Kind: o.Kind, Key: o.Key, What: o.What, Impl: o.Impl, Model: o.Model,
+						Input: c19Replay{Program: small.Src, Edit: multi, Note: "found in " + cs.Name + "; replay: `mro edit` with the options of all steps in one invocation"}}
+					if small != cs {
+						c19LastCorr = nil
+						if o2, sk := c19CheckMulti(c, small, steps); sk == "" {
+							if o2.Key == "" && c19LastCorr != nil {
+								o2 = *c19LastCorr
+							}
+							if o2.Key == o.Key {
+								v.What, v.Impl, v.Model = o2.What, o2.Impl, o2.Model
+							}
+						}
+					}
+					if o.Kind == "correspondence" {
+						v.Broken = "correspondence Martian.Refactor (composition of single steps) ~ refactoring.Refactor with several operations"
+					}
+					r.violate(v)
+				}
+			}
 		}
 	}
 	r.note("programs: %d (generated %d, rejected by the compiler %d); time spent shrinking failing inputs: %.1fs; child restarts after a crash: %d", len(cases), made, rejected, shrinkTime.Seconds(), c19W.deaths)
